@@ -63,10 +63,15 @@ def enumerate_inputs(chk):
     elif res.error:
         raise vlib.Inconclusive("TLC %s: %s\n%s" % (cfg, res.error, res.out[-1500:]))
     seen = {}
+    pwcases = []
     for o in got:
         if "sessions" in o:
             seen.setdefault(vlib.canon(o), o)
-    if not seen:
+        elif "pwcases" in o:
+            pwcases = sorted(o["pwcases"], key=vlib.canon)
+            for n, c in enumerate(pwcases):
+                c["id"] = "pw%03d" % n
+    if not seen or not pwcases:
         raise vlib.Inconclusive("no inputs from %s: %s" % (cfg, res.out[-800:]))
     scs = []
     for n, k in enumerate(sorted(seen)):
@@ -74,10 +79,31 @@ def enumerate_inputs(chk):
         scs.append({"id": "s%06d" % n, "node": o["node"], "ns": o["ns"], "sessions": o["sessions"], "orders": o["orders"]})
     vlib.log("  %s: %d states, %d session sets, %d orders, %.1fs" % (cfg, res.distinct, len(scs),
                                                                      sum(len(s["orders"]) for s in scs), res.wall))
-    return scs
+    return scs, pwcases
 
 
 # --------------------------------------------------------------------------- harness
+
+def execute_pw(chk, pwcases, tag):
+    """The speaker's passwordForSession on every case; returns the observations (mode pw)."""
+    d = os.path.join(chk.work, "h_" + tag)
+    os.makedirs(d, exist_ok=True)
+    scen = os.path.join(d, "pw_scen.ndjson")
+    with open(scen, "w") as fh:
+        fh.write(json.dumps({"pwcases": pwcases}, separators=(",", ":")) + "\n")
+    m = kit_files()
+    m["speaker/zz_verif_frrcfg_password_test.go"] = os.path.join(vlib.HARNESS, "frrpw", "frrcfg_password_test.go")
+    ov = vlib.overlay_for(m, os.path.join(chk.work, "ov_" + tag + "_pw"))
+    obs_path = os.path.join(d, "obs_pw.ndjson")
+    rc, txt = vlib.go_test("speaker", "^TestVerifFrrcfgPassword$", ov, {"VERIF_SCENARIOS": scen, "VERIF_OBS": obs_path}, timeout=1500)
+    if rc != 0:
+        raise vlib.Inconclusive("harness speaker failed (rc=%s):\n%s" % (rc, txt[-3000:]))
+    obs = [json.loads(l) for l in open(obs_path)]
+    if len(obs) != len(pwcases):
+        raise vlib.Inconclusive("harness speaker logged %d observations for %d password cases" % (len(obs), len(pwcases)))
+    return obs
+
+
 
 def execute(chk, scs, tag, modes, text=False):
     """Plays the scenarios on the real code; returns {mode: [observations sorted by (id, ord)]}."""
@@ -111,6 +137,17 @@ def execute(chk, scs, tag, modes, text=False):
         if len(obs) != want:
             raise vlib.Inconclusive("harness %s logged %d observations for %d orders" % (pkg, len(obs), want))
         obs.sort(key=lambda o: (o["id"], o["ord"]))
+        # the harness writes sessions + program / resource once per distinct artefact of a session set (same = the order
+        # that produced the byte-identical text / JSON first); share them here
+        at = {(o["id"], o["ord"]): o for o in obs}
+        for o in obs:
+            if o.get("same"):
+                src = at[(o["id"], o["same"])]
+                if src["sha"] != o["sha"]:
+                    raise vlib.Inconclusive("harness %s: order %s of %s refers to order %s with another digest" % (pkg, o["ord"], o["id"], o["same"]))
+                for k in ("sessions", "prog", "cr", "text", "json"):
+                    if k in src:
+                        o[k] = src[k]
         out[mode] = obs
     if "frr" in out:
         unk = [(o["id"], o["prog"]["unknown"][:3]) for o in out["frr"] if o["prog"]["unknown"]]
@@ -130,7 +167,7 @@ def lines_for(prop, out):
     for o in out["k8s"]:
         f = prog[(o["id"], o["ord"])]
         j = {"id": o["id"], "ord": o["ord"], "mode": "c15", "node": o["node"], "ns": o["ns"], "sessions": o["sessions"],
-             "created": o["created"], "created14": f["created"], "errs": o["errs"], "errs14": f["errs"], "sha": o["sha"],
+             "created": o["created"], "created14": f["created"], "errs": o["errs"], "errs14": f["errs"], "sha": o["sha"], "sha14": f["sha"],
              "len": o["len"], "calls": o["calls"], "cr": o["cr"], "prog": f["prog"]}
         if o.get("json"):
             j["json"] = o["json"]
@@ -141,10 +178,18 @@ def lines_for(prop, out):
 
 
 def judge(chk, lines, tag):
+    """Role C.  Orders of one session set that produced the SAME artefact (equal SHA-256 of the text, for C15 also of the
+    resource) are judged once: the predicates are functions of (sessions, program, resource).  A second line of the same
+    id therefore exists only if an order produced something different, which is what Deterministic forbids."""
+    groups = {}
+    for o in lines:                                   # lines are sorted by (id, ord)
+        groups.setdefault((o["id"], o["sha"], o.get("sha14", "")), []).append(o)
     p = os.path.join(chk.work, "obs_%s.ndjson" % tag)
     with open(p, "w") as fh:
-        for o in lines:
-            o = {k: v for k, v in o.items() if k not in ("text", "json")}
+        # within one id: orders that produced no resource at all first (see FRRTrace!Verdict15), then by first order
+        for key in sorted(groups, key=lambda k: (k[0], bool(groups[k][0].get("cr", {}).get("present", True)), groups[k][0]["ord"])):
+            o = {k: v for k, v in groups[key][0].items() if k not in ("text", "json")}
+            o["ords"] = [x["ord"] for x in groups[key]]
             fh.write(json.dumps(o, separators=(",", ":")) + "\n")
     return vlib.run_judge_parallel(chk, "FRRTrace", "FRRTrace.cfg", p, walk_key="id", chunks=JUDGES)
 
@@ -152,22 +197,21 @@ def judge(chk, lines, tag):
 # --------------------------------------------------------------------------- signatures
 
 def _kind(s):
-    k = "iface" if s["iface"] else ("v4" if s["afam"] == 4 else "v6")
-    if s["disablemp"]:
-        k += "+dmp"
-    if s["vrf"]:
-        k += "+vrf"
-    return k
+    return "iface" if s["iface"] else ("v4" if s["afam"] == 4 else "v6")
 
 
 def signature(name, fail, line):
     """Canonical description of one failing conjunct: the conjunct + the kinds of neighbor it fails on (per-session
     conjuncts) or the number of live sessions (global ones)."""
+    if line["mode"] == "pw":
+        return "%s|speaker|impl=%s|handling=%s" % (name, line["case"]["impl"], line["case"]["handling"])
     by_k = {s["k"]: s for s in line["sessions"]}
     det = [d for d in (fail.get("info", {}).get("detail") or []) if d[1] == name]
+    if ".Params." in name or name.endswith(".PasswordXor"):
+        return name
     if det:
-        kinds = sorted({_kind(by_k[d[0]]) for d in det})
-        return "%s|nbr=%s" % (name, ",".join(kinds))
+        # the first (alphabetically) kind of neighbor it fails on: iface / v4 / v6
+        return "%s|nbr=%s" % (name, sorted({_kind(by_k[d[0]]) for d in det})[0])
     live = sum(1 for s in line["sessions"] if not s["ghost"])
     return "%s|sessions=%d" % (name, live)
 
@@ -178,6 +222,8 @@ def _short_session(s):
 
 
 def _short(line):
+    if line["mode"] == "pw":
+        return {k: line[k] for k in ("id", "mode", "case", "password", "secret", "panic")}
     o = {"id": line["id"], "ord": line["ord"], "mode": line["mode"], "sessions": [_short_session(s) for s in line["sessions"]],
          "errs": line.get("errs"), "sha": line["sha"][:16], "len": line["len"]}
     if "prog" in line:
@@ -204,6 +250,18 @@ def split_fails(prop, fails):
 
 
 # --------------------------------------------------------------------------- run / confirm / replay
+
+def rerun(chk, items, tag):
+    """Re-executes session sets and / or password cases alone (with the text kept) and returns the judge's lines."""
+    scs = [x for x in items if "sessions" in x]
+    pws = [x for x in items if "sessions" not in x]
+    lines = []
+    if scs:
+        lines += lines_for(chk.prop, execute(chk, scs, tag, modes_for(chk.prop), text=True))
+    if pws:
+        lines += execute_pw(chk, pws, tag)
+    return lines
+
 
 def modes_for(prop):
     return ["frr"] if prop == "C14" else ["frr", "k8s"]
@@ -246,20 +304,32 @@ def assumptions(chk):
 
 
 def run(chk):
-    scs = enumerate_inputs(chk)
+    scs, pwcases = enumerate_inputs(chk)
     byid = {sc["id"]: sc for sc in scs}
-    out = execute(chk, scs, "all", modes_for(chk.prop))
-    lines = lines_for(chk.prop, out)
+    if chk.prop == "C15":
+        with concurrent.futures.ThreadPoolExecutor(max_workers=2) as ex:
+            fpw = ex.submit(execute_pw, chk, pwcases, "all")
+            out = execute(chk, scs, "all", modes_for(chk.prop))
+            pwobs = fpw.result()
+    else:
+        out, pwobs = execute(chk, scs, "all", modes_for(chk.prop)), []
+    lines = lines_for(chk.prop, out) + pwobs
+    if pwobs:
+        chk.cov["password_cases"] = len(pwobs)
+    for c in pwcases:
+        byid[c["id"]] = c
     fails, nlines = judge(chk, lines, "all")
     verdict, info = split_fails(chk.prop, fails)
-    chk.cov["traces_validated_against_impl"] += nlines
-    chk.cov["evaluations"] += nlines
+    chk.cov["traces_validated_against_impl"] += len(lines)
+    chk.cov["evaluations"] += len(lines)
+    chk.cov["judged_distinct_artefacts"] = nlines
     chk.cov["session_sets"] = len(scs)
     chk.cov["by_sessions"] = {str(k): sum(1 for sc in scs if sum(1 for s in sc["sessions"] if not s["ghost"]) == k) for k in (1, 2, 3)}
-    nontrivial = {l["sha"] for l in lines if any(s["advs"] and not s["ghost"] for s in l["sessions"])}
+    nontrivial = {l["sha"] for l in lines if any(s["advs"] and not s["ghost"] for s in l.get("sessions", []))}
     chk.cov["distinct_nontrivial"] += len(nontrivial)
     chk.cov["rule"] = ("every session set TLC enumerates (spec/FRRMC.tla, tier and -seed) is created on the real session manager in "
-                       "every listed creation order; one evaluation = one (session set, order) judged by spec/FRRTrace.tla; "
+                       "every listed creation order; one evaluation = one (session set, order); spec/FRRTrace.tla judges each distinct "
+                       "artefact of a session set once (orders with the same SHA-256 share the verdict); "
                        "non-trivial = distinct rendered %s (SHA-256) among session sets with at least one advertisement"
                        % ("texts" if chk.prop == "C14" else "FRRConfiguration resources"))
     chk.cov["exhaustive"] = False
@@ -268,7 +338,7 @@ def run(chk):
         print("INFO: %d programs reference a prefix-list that is not defined (harmless under FRR's semantics, "
               "see assumptions); not a verdict" % len(info))
     for k in (1, 2, 3):
-        s = next((l for l in lines if sum(1 for x in l["sessions"] if not x["ghost"]) == k and l["ord"] == 1
+        s = next((l for l in lines if "sessions" in l and sum(1 for x in l["sessions"] if not x["ghost"]) == k and l["ord"] == 1
                   and any(x["advs"] for x in l["sessions"])), None)
         if s is not None:
             chk.cov["samples"].append(_short(s))
@@ -294,9 +364,7 @@ def confirm(chk, verdict, byid, lines):
         for i in ids[:CONFIRM_PER_SIG]:
             if i not in chosen:
                 chosen.append(i)
-    scs = [byid[i] for i in chosen]
-    out = execute(chk, scs, "confirm", modes_for(chk.prop), text=True)
-    lines2 = lines_for(chk.prop, out)
+    lines2 = rerun(chk, [byid[i] for i in chosen], "confirm")
     fails2, _ = judge(chk, lines2, "confirm")
     verdict2, _ = split_fails(chk.prop, fails2)
     report(chk, verdict2, lines2, byid)
@@ -323,7 +391,9 @@ def report(chk, verdict, lines, byid):
             if sig in seen:
                 continue
             seen.add(sig)
-            detail = {"observation": _short(l), "judge": f.get("info"), "order": byid[f["id"]]["orders"][f["ord"] - 1]}
+            detail = {"observation": _short(l), "judge": f.get("info")}
+            if "orders" in byid[f["id"]]:
+                detail["order"] = byid[f["id"]]["orders"][f["ord"] - 1]
             if l.get("text"):
                 detail["text"] = l["text"]
             if l.get("json"):
@@ -335,15 +405,14 @@ def replay(chk, path):
     body = json.load(open(path))
     scs = body["scenario"]["scenarios"]
     byid = {sc["id"]: sc for sc in scs}
-    out = execute(chk, scs, "replay", modes_for(chk.prop), text=True)
-    lines = lines_for(chk.prop, out)
+    lines = rerun(chk, scs, "replay")
     fails, nlines = judge(chk, lines, "replay")
     verdict, _ = split_fails(chk.prop, fails)
-    chk.cov["evaluations"] = chk.cov["traces_validated_against_impl"] = nlines
+    chk.cov["evaluations"] = chk.cov["traces_validated_against_impl"] = len(lines)
     # the only TLC run of a replay is role C: the trace specification has one state per observation
     chk.cov["states"] = chk.cov["transitions"] = nlines
     chk.cov["rule"] = "replay of the stored session sets; states = states of the role-C trace specification"
-    chk.cov["distinct_nontrivial"] = len({l["sha"] for l in lines})
+    chk.cov["distinct_nontrivial"] = len({l["sha"] for l in lines if l["mode"] != "pw"}) + sum(1 for l in lines if l["mode"] == "pw")
     chk.cov["samples"] += [_short(l) for l in lines[:3]]
     report(chk, verdict, lines, byid)
     assumptions(chk)
